@@ -210,6 +210,22 @@ func (m *MonGenesis) AfterBlock(s *Sim, req *BlockReq, res *BlockRes) {
 		b.Destroy()
 		return
 	}
+	// the same comparison through accessors (what transactions will see): balances, nonces, multisig wallets, coins, pools,
+	// orders - an account or field that the export silently drops is invisible to an export-vs-export comparison
+	addrs, coins := s.Universe()
+	sa, sb := s.SnapOf(s.N, addrs, coins), s.SnapOf(b, addrs, coins)
+	var acc []string
+	for _, k := range DiffSnap(sa, sb) {
+		if strings.HasPrefix(k, "cand/") || strings.HasPrefix(k, "stake/") || strings.HasPrefix(k, "wl/") || k == "app/slashed" {
+			continue // staking sections are judged above (recalculated at import)
+		}
+		acc = append(acc, fmt.Sprintf("%s: %s -> %s", k, sa[k], sb[k]))
+	}
+	if len(acc) > 0 {
+		m.rep(s, "import-loses-state", accessorClass(acc[0]), fmt.Sprint(clip(acc, 5)))
+		b.Destroy()
+		return
+	}
 	m.Res.Evaluations++
 	kind := "arbitrary-height"
 	m.fresh = uint64(req.Height)%s.Opts.StakePeriod == 0 && derived == 0
@@ -254,6 +270,13 @@ func (m *MonGenesis) AfterBlock(s *Sim, req *BlockReq, res *BlockRes) {
 	} else {
 		b.Destroy()
 	}
+}
+
+func accessorClass(l string) string {
+	if i := strings.Index(l, "/"); i > 0 {
+		return l[:i]
+	}
+	return l
 }
 
 func verifyClass(e string) string {
